@@ -7,6 +7,7 @@ exit 2 on I/O or protocol errors.
 import Driver.Pure
 import Driver.Prov
 import Driver.Height
+import Driver.Wire
 
 open Driver
 
@@ -16,6 +17,8 @@ def evalLine (input : String) : Option String :=
   | "pw" :: _ => evalProv ws
   | "pa" :: _ => evalProv ws
   | "hw" :: _ => evalHeight ws
+  | "wf" :: _ => evalWire ws
+  | "wd" :: _ => evalWire ws
   | _ => evalPure ws
 
 partial def loop (h : IO.FS.Stream) (n d bad : Nat) (lineNo : Nat) : IO (Nat × Nat × Nat) := do
